@@ -89,8 +89,8 @@ CHECKS = {
                      "open finding C01/trace-block-empty-result-stalls is removed from the generator by construction (every block has a trace when a trace declaration exists)",
                      "field sets are drawn from the fields the planner tables list (others: C14)"],
         units=[
-            R("TestC01_Growth", 3200, 80000, shards=16),
-            R("TestC01_GrowthFaults", 1600, 40000, shards=16),
+            R("TestC01_Growth", 6400, 80000, shards=16),
+            R("TestC01_GrowthFaults", 3200, 40000, shards=16),
             P("TestC01_KnownFindings"),
         ],
     ),
@@ -104,7 +104,7 @@ CHECKS = {
                      "with concurrency > 1 the moment a mid-step reorg lands relative to other partitions is schedule-dependent; the verdict (quiescence equality) is interleaving-independent, reproduction may need the logged history",
                      "fakepg/sim/model as for C01"],
         units=[
-            R("TestC03_Reorg", 2400, 60000, shards=16),
+            R("TestC03_Reorg", 6400, 60000, shards=16),
             P("TestC03_KnownFindings"),
         ],
     ),
@@ -127,8 +127,8 @@ CHECKS = {
               "non-trivial = a dependant was stepped while a referenced integration was strictly behind the head."),
         assumptions=["fakepg/sim/model as for C01", "one reference operator per dependant so that acceptance is monotone in the referenced table contents"],
         units=[
-            R("TestC05_Dependencies", 2400, 60000, shards=16),
-            R("TestC05_DependenciesReorg", 1600, 40000, shards=16),
+            R("TestC05_Dependencies", 3200, 60000, shards=16),
+            R("TestC05_DependenciesReorg", 4800, 40000, shards=16),
         ],
     ),
     "C04": dict(
@@ -138,7 +138,7 @@ CHECKS = {
               "non-trivial = >= 2 pairs AND a pair deleted rows (reorg unwind) or everything was restarted."),
         assumptions=["fakepg/sim/model as for C01/C03", "open finding C16/shared-table-unique-key-first-wins: declarations with different identity columns do not share a table (excluded by construction, counted)"],
         units=[
-            R("TestC04_Isolation", 2400, 60000, shards=16),
+            R("TestC04_Isolation", 4800, 60000, shards=16),
         ],
     ),
     "C02": dict(
@@ -152,7 +152,7 @@ CHECKS = {
                      "'process death' = all connections closed and pool, tasks, clients and caches rebuilt from configuration"],
         units=[
             P("TestC02_SingleFaults", shards=12),
-            R("TestC02_MultiFault", 1600, 40000, shards=16),
+            R("TestC02_MultiFault", 3200, 40000, shards=16),
         ],
     ),
     "C14": dict(
@@ -176,7 +176,7 @@ CHECKS = {
               "Insert: the row builder alone with a capturing connection, values rendered as pgx would store them (driver.Valuer -> decimal), per selected input and for log_idx/abi_idx/block_num/tx_idx. non-trivial = an unselected input precedes a selected one, or a negative signed value occurs, or >= 6 block-level fields in shuffled order."),
         assumptions=["indexed inputs are static elementary types (the topic is the value)", "documented column types are used (uintN/intN -> numeric, address/bytes/bytesN -> bytea, bool -> bool, string -> text)"],
         units=[
-            R("TestC11_FullPath", 2400, 60000, shards=16),
+            R("TestC11_FullPath", 6400, 60000, shards=16),
             R("TestC11_Insert", 30000, 1000000, shards=8),
         ],
     ),
@@ -190,7 +190,7 @@ CHECKS = {
                      "filters are attached to selected inputs / declared block fields only"],
         units=[
             R("TestC12_RowBuilder", 24000, 600000, shards=16),
-            R("TestC12_Pushdown", 1600, 40000, shards=16),
+            R("TestC12_Pushdown", 3200, 40000, shards=16),
         ],
     ),
     "C16": dict(
@@ -202,7 +202,7 @@ CHECKS = {
         assumptions=["open finding C16/shared-table-unique-key-first-wins: integrations with different identity columns are not put on one table by the generator (counted as excluded); its reproduction runs in TestC16_KnownFindings",
                      "identifiers are lower-case ASCII (unquoted identifiers fold to lower case in Postgres; the fake models that)"],
         units=[
-            R("TestC16_Schema", 1600, 40000, shards=16),
+            R("TestC16_Schema", 4800, 40000, shards=16),
             P("TestC16_KnownFindings"),
         ],
     ),
@@ -257,7 +257,7 @@ CHECKS = {
               "Dashboard: the same per-position replacement on the integration posted to /save-integration (and hostile values posted to /save-source): nothing with a hostile listed position may be stored. non-trivial = the variant was accepted, or the position is nested (component / filter_ref / unique / index)."),
         assumptions=["the marker may appear in Bind parameters and COPY data only", "strings made of letters (any script), digits, underscore and hyphen are legal identifiers by the statement and are not used as hostile values"],
         units=[
-            R("TestC15_FileConfig", 48, 1600, shards=16),
+            R("TestC15_FileConfig", 96, 1600, shards=16),
             R("TestC15_Dashboard", 160, 4800, shards=16),
         ],
     ),
@@ -270,7 +270,7 @@ CHECKS = {
         assumptions=["'picked up' and 'has stopped' are checked with bounded waits; timings are generated, not exhaustive",
                      "every integration has a stop so that runners end by themselves (the Manager has no stop call)"],
         units=[
-            R("TestC20_Manager", 320, 8000, shards=16, timeout=dict(quick=600, thorough=3000)),
+            R("TestC20_Manager", 960, 8000, shards=16, timeout=dict(quick=600, thorough=3000)),
         ],
     ),
     "C18": dict(
@@ -281,7 +281,7 @@ CHECKS = {
         assumptions=["happens-before race detection only sees executed accesses: absence of a report is not absence of a race",
                      "workloads are schedule-dependent; rapid cannot shrink or replay a race, the report itself is the reproduction"],
         units=[
-            dict(test="TestC18_Races", kind="rapid", checks=dict(quick=240, thorough=6000), shards=16, race=True, timeout=dict(quick=900, thorough=3000)),
+            dict(test="TestC18_Races", kind="rapid", checks=dict(quick=640, thorough=6000), shards=16, race=True, timeout=dict(quick=900, thorough=3000)),
         ],
     ),
 }
